@@ -549,6 +549,31 @@ Proof.
   - apply fold_total; [apply sorted_nodup, uniq_sorted_sorted | intros x Hx; now apply uniq_sorted_in].
 Qed.
 
+(* header vectors are aggregated in the same (sorted) label order as the rows and fold *)
+Theorem stack_header_spec {A B H HB} (agg : list A -> B) (hagg : list H -> HB)
+        (data : list A) (hdrs : list (list H)) (word : list Z) st hs fold :
+  stack_header agg hagg data hdrs word = (st, hs, fold) ->
+  let groups := uniq_sorted word in
+  stack agg data word = (st, fold) /\
+  length hs = length hdrs /\
+  forall (k i : nat) (dh : list H) (dhb : HB), (k < length hdrs)%nat -> (i < length groups)%nat ->
+    length (nth k hs []) = length groups /\
+    nth i (nth k hs []) dhb = hagg (select word (nth k hdrs dh) (nth i groups 0)) /\
+    nth i fold 0 = count_eq (nth i groups 0) word.
+Proof.
+  unfold stack_header. destruct (stack agg data word) as [st' fold'] eqn:E. intros H0. inversion H0; subst st hs fold; clear H0.
+  cbv zeta. split; [reflexivity|]. split; [now rewrite map_length|].
+  intros k i dh dhb Hk Hi. unfold stack in *. cbn [fst]. inversion E; subst st' fold'.
+  rewrite (nth_indep _ [] ((fun h => map (fun g => hagg (select word h g)) (uniq_sorted word)) dh))
+    by (rewrite map_length; exact Hk).
+  rewrite (map_nth (fun h => map (fun g => hagg (select word h g)) (uniq_sorted word))).
+  split; [now rewrite map_length|]. split.
+  - rewrite (nth_indep _ dhb ((fun g => hagg (select word (nth k hdrs dh) g)) 0)) by (rewrite map_length; exact Hi).
+    now rewrite (map_nth (fun g => hagg (select word (nth k hdrs dh) g))).
+  - rewrite (nth_indep _ 0 ((fun g => count_eq g word) 0)) by (rewrite map_length; exact Hi).
+    now rewrite (map_nth (fun g => count_eq g word)).
+Qed.
+
 (* ------------------------------------------------------------------ *)
 (* smooth.rolling_window / smooth.lp: lengths                          *)
 (* ------------------------------------------------------------------ *)
